@@ -148,3 +148,43 @@ Definition succession_control (N : net) (d : sd) (target : space) (all_strategy 
          let ctl := drivers_of_succession N succ all_strategy (top_space (nvars N)) maxd forbidden in
          (succ, ctl, forallb (fun c => match c with [] => false | _ => true end) ctl))
       (successions d target).
+
+(* ---- skip_feedforward_successions: drop successions whose signature (union of the step motifs) is subsumed ---- *)
+Definition signature (succ : list space) : space :=
+  match succ with
+  | [] => []
+  | m :: r => fold_left merge r m            (* reduce(lambda x, y: x | y, succession) *)
+  end.
+
+(* for i in reversed(range(len(signatures))): subsumed by an existing one -> stop and skip the new one (what was deleted
+   so far stays deleted); existing ones subsumed by the new one are deleted.  `rkept` is the list in REVERSE order. *)
+Fixpoint ff_scan (sig : space) (rkept : list (space * list space)) : list (space * list space) * bool :=
+  match rkept with
+  | [] => ([], false)
+  | (e, s) :: r =>
+      if subspace sig e then ((e, s) :: r, true)
+      else if subspace e sig then ff_scan sig r
+      else let '(r', skip) := ff_scan sig r in ((e, s) :: r', skip)
+  end.
+
+Definition ff_filter (succs : list (list space)) : list (list space) :=
+  map snd (rev (fold_left (fun rkept succ =>
+                             let sig := signature succ in
+                             let '(rk, skip) := ff_scan sig rkept in
+                             if skip then rk else (sig, succ) :: rk) succs [])).
+
+Definition successions_ff (d : sd) (target : space) (skip_ff : bool) : list (list space) :=
+  if skip_ff then
+    match successions d target with
+    | [[]] => [[]]                           (* the "no control needed" answer is produced after the loop *)
+    | l => ff_filter l
+    end
+  else successions d target.
+
+Definition succession_control_ff (N : net) (d : sd) (target : space) (all_strategy : bool)
+           (maxd : option nat) (forbidden : list nat) (skip_ff : bool)
+  : list (list space * list (list space) * bool) :=
+  map (fun succ =>
+         let ctl := drivers_of_succession N succ all_strategy (top_space (nvars N)) maxd forbidden in
+         (succ, ctl, forallb (fun c => match c with [] => false | _ => true end) ctl))
+      (successions_ff d target skip_ff).
